@@ -97,6 +97,66 @@ def runtime_observations(root):
     return env, state
 
 
+def strip_quote_templates(text):
+    """source text without the bodies of quote! / quote_spanned! / format! string templates: what remains is the code that runs
+    when the macro runs (the bodies are generated code)"""
+    out, i = [], 0
+    pat = re.compile(r"\b(quote_spanned|quote)\s*!\s*([\{\(\[])")
+    closers = {"{": "}", "(": ")", "[": "]"}
+    while True:
+        m = pat.search(text, i)
+        if not m:
+            out.append(text[i:])
+            break
+        out.append(text[i:m.start()])
+        o, c = m.group(2), closers[m.group(2)]
+        depth, k = 1, m.end()
+        while k < len(text) and depth:
+            if text[k] == o:
+                depth += 1
+            elif text[k] == c:
+                depth -= 1
+            k += 1
+        out.append(" QUOTE_TEMPLATE ")
+        i = k
+    return "".join(out)
+
+
+PANIC_CONSTRUCTS = [
+    ("unwrap", r"\.\s*unwrap\s*\(\s*\)"), ("expect", r"\.\s*expect\s*\("), ("panic!", r"\bpanic\s*!"), ("unreachable!", r"\bunreachable\s*!"),
+    ("unimplemented!", r"\b(?:unimplemented|todo)\s*!"), ("assert!", r"\b(?:debug_)?assert(?:_eq|_ne)?\s*!"),
+    ("Ident::new", r"\bIdent\s*::\s*new\s*\("), ("format_ident!", r"\bformat_ident\s*!"), ("LitInt::new", r"\bLit(?:Int|Float)\s*::\s*new\s*\("),
+    ("Index::from", r"\bIndex\s*::\s*from\s*\("), ("Literal::", r"\bLiteral\s*::\s*\w+\s*\("),
+    ("slice-range", r"[\w\)\]]\s*\[[^\[\]\n]*\.\.[^\[\]\n]*\]"), ("index", r"[\w\)\]]\[\s*[\w\.\(\)\+\- ]+\s*\](?!\s*=>)"),
+    ("split_at / remove", r"\.\s*(?:split_at|split_off|remove|swap_remove|drain|truncate_at)\s*\("), ("usize-subtraction", r"\b\w+(?:\.len\(\))?\s-\s(?:\w+|1)\b"),
+    ("from_str_radix / char::from", r"\b(?:from_str_radix|from_u32|from_digit)\s*\("),
+]
+
+
+def panic_capable_sites(root, strip_templates):
+    """(file, construct, the line squeezed) for every construct that can panic (or overflow) when it is reached, in source order;
+    comments, doc comments, string literal contents, the verification hooks and (for the macro crate) quote! templates excluded"""
+    sites = []
+    for path in sorted(vlib.walk(root, (".rs",))):
+        rel = os.path.relpath(path, vlib.REPO)
+        text = strip_hooks(open(path).read())
+        if strip_templates:
+            text = strip_quote_templates(text)
+        # blank out string literal contents and attributes
+        text = re.sub(r'"(?:[^"\\\n]|\\.)*"', '""', text)
+        text = re.sub(r"#!?\[[^\]\n]*\]", "", text)
+        text = re.sub(r"\bToken\s*!\s*\[[^\]]*\]", "TOKEN", text)
+        text = re.sub(r"\b(?:vec|matches|write|writeln|format|println|eprintln)\s*!", lambda m: m.group(0).replace("!", "_MACRO"), text)
+        for ln in text.split("\n"):
+            st = ln.strip()
+            if not st:
+                continue
+            for name, rx in PANIC_CONSTRUCTS:
+                if re.search(rx, st):
+                    sites.append((rel, name, re.sub(r"\s+", " ", st)[:90]))
+    return sites
+
+
 def features(manifest):
     t = manifest.get("features", {})
     return [(k, list(v)) for k, v in t.items()]
@@ -116,6 +176,8 @@ def facts():
         "macro_gates": gates(os.path.join(vlib.REPO, "assert-struct-macros", "src")),
         "runtime_env": runtime_observations(os.path.join(vlib.REPO, "assert-struct", "src"))[0],
         "runtime_state": runtime_observations(os.path.join(vlib.REPO, "assert-struct", "src"))[1],
+        "macro_panic_sites": panic_capable_sites(os.path.join(vlib.REPO, "assert-struct-macros", "src"), True),
+        "runtime_panic_sites": panic_capable_sites(os.path.join(vlib.REPO, "assert-struct", "src", "error.rs") if False else os.path.join(vlib.REPO, "assert-struct", "src"), False),
         "runtime_regex_optional": bool(rt.get("dependencies", {}).get("regex", {}).get("optional", False))
         if isinstance(rt.get("dependencies", {}).get("regex"), dict) else False,
     }
@@ -126,6 +188,9 @@ def write(f=None):
 
     def table(t):
         return coq_list(["(%s, %s)" % (coq_str(k), coq_list([coq_str(x) for x in v])) for k, v in t])
+
+    def tlist(g):
+        return coq_list(["(%s, %s, %s)" % (coq_str(a), coq_str(b), coq_str(c)) for a, b, c in g])
 
     def glist(g):
         return coq_list(["(%s, %s)" % (coq_str(p), coq_str(x)) for p, x in g])
@@ -150,9 +215,16 @@ Definition runtime_env_reads : list (string * string) := %s.
 
 (* every `static` and `thread_local!` of assert-struct/src (hooks excluded): the state that survives an assertion *)
 Definition runtime_shared_state : list (string * string) := %s.
+
+(* every construct of assert-struct-macros/src that can panic when it is reached while the macro runs (quote! templates, which are
+   generated code, comments, hooks excluded): (file, construct, line) *)
+Definition macro_panic_sites : list (string * string * string) := %s.
+
+(* the same for assert-struct/src (the run-time support: report formatting, source lookup, set matching, Like impls) *)
+Definition runtime_panic_sites : list (string * string * string) := %s.
 """ % (table(f["runtime_features"]), table(f["macro_features"]), "true" if f["edge_default"] else "false",
        coq_list([coq_str(x) for x in f["edge_features"]]), glist(f["runtime_gates"]), glist(f["macro_gates"]),
-       glist(f["runtime_env"]), glist(f["runtime_state"]))
+       glist(f["runtime_env"]), glist(f["runtime_state"]), tlist(f["macro_panic_sites"]), tlist(f["runtime_panic_sites"]))
     path = os.path.join(vlib.COQ, "gen", "RepoFacts.v")
     os.makedirs(os.path.dirname(path), exist_ok=True)
     if not os.path.exists(path) or open(path).read() != text:
